@@ -222,7 +222,7 @@ Print Assumptions C15_uses_tree_spec.
    cell passes the test of the child its octant comparisons choose, (Hup) inside a child implies inside the parent, and
    the octant/slot values are in range: if before the update every particle index < N sits in exactly one leaf with an exact
    back pointer (flagged particles and particles that left their cells included), then after reb_simulation_update_tree
-   (when it does not stop with 'same coordinates' / resolution exhausted) every index < N' sits in exactly one leaf with an
+   (when the integer resolution is not exhausted; a refused re-insertion -- identical coordinates -- is part of the model) every index < N' sits in exactly one leaf with an
    exact back pointer (the fix-up is correct: leaf index = position of its particle), and every root cell is completely in
    order (every leaf's particle passes the inside test of its cell, counts exact and >= 2, 8 children). *)
 Theorem C15_update_tree_accounted : forall (X : Type) (xd : X) ins octf same flg L nroot (okx : X -> Prop),
@@ -243,8 +243,10 @@ Print Assumptions C15_update_tree_accounted.
 (* The instance with the exact integer geometry (the executable model that is compared with the library).  Hypotheses
    now needed: exact arithmetic (Hroute/Hup are THEOREMS there: child_inside, inside_child_parent -- this is where the
    remaining open finding tree:cell_centre_rounding is excluded: in binary64 a rounded cell centre breaks Hroute by one
-   ulp), an accounted pre-state whose cells have 8 children, and a run that does not stop with 'same coordinates' / at the
-   resolution limit.  The half-open-box hypothesis (okx) is GONE: since /repo da62396 the upper box border is routed to
+   ulp), an accounted pre-state whose cells have 8 children, and a run that does not stop at the resolution limit of the
+   integer grid (result Some; the ONLY None left in PathModel.padd/pupd besides a back pointer that does not point to a leaf).
+   'Cannot add two particles with the same coordinates' is no longer excluded: since /repo 950a4b2 it is modelled (the
+   re-insertion is refused, tree and N unchanged, the particle that moved onto another one is dropped) and covered by the theorem.  The half-open-box hypothesis (okx) is GONE: since /repo da62396 the upper box border is routed to
    the last root box, whose closed cell contains it (C15_root_inside for the closed box), so okx holds for every particle.
    No tie/strictness hypothesis is needed for well-formedness (ties only matter for uniqueness, C15_canonical_unique). *)
 Theorem C15_update_tree_wf : forall u nx ny nz L, (0 < u)%Z -> (0 < nx)%Z -> (0 < ny)%Z -> (0 < nz)%Z ->
